@@ -12,7 +12,12 @@ from sa.props._lib_h import (Normaliser, assigned_pairs, call_nodes, calls_at, c
 PROPERTY = "C39"
 TELNET = "conch/telnet.py"
 Q = "twisted.conch.telnet.Telnet."
-TECHNIQUE = "dispatch-table exhaustiveness + per-row CFG path obligations (detach-then-fire, reply discipline)"
+TECHNIQUE = ("structural: dispatch-table exhaustiveness and table agreement, per-row CFG path obligations (detach-then-fire, reply discipline, must-precede), "
+             "who-may-write closed over the call graph, on the normalised view of Telnet; framing clauses included from C38 (finite-exhaustive transition table + structural "
+             "rules + bounded corpus, kinds as declared there)")
+RULE_KINDS = {      # every rule of this module is decided on the shape of the normalised code; included "C38:..." rules carry C38's kinds
+    "*": "structural",
+}
 EXPLANATION = (
     "Reads the four negotiation tables (willMap/wontMap/doMap/dontMap) of Telnet from the AST and decides: (a) each table has "
     "exactly the four (state, negotiating) keys, every value is a method, and each telnet_* dispatcher indexes its own table with "
@@ -23,7 +28,11 @@ EXPLANATION = (
     "requesters will/wont/do/dont send only when neither perspective is negotiating and the state differs, after arming "
     "`negotiating`/`onResult`, and return the armed Deferred; nobody else writes the negotiation fields or fires the Deferreds; (e) entries of "
     "self.options and their perspectives are removed / replaced only under 'neither perspective negotiating' (or after connectionLost drained them); "
-    "(f) the framing clauses of C38's receive automaton are included: a WILL/WONT/DO/DONT or sub-negotiation cut by a delivery boundary is still dispatched. "
+    "(f) the framing clauses of C38's receive automaton are included: a WILL/WONT/DO/DONT or sub-negotiation cut by a delivery boundary is still dispatched "
+    "(C38:reader/transition-table is finite-exhaustive over all (state, byte) pairs, C38:reader/state-on-instance, who-writes-state, state-has-branch are structural, "
+    "C38:reader/round-trip, flush-at-chunk-end, delivery-unchanged, unknown-state-raises are bounded witnesses). All rules (a)-(e) are STRUCTURAL: tables are read from "
+    "the AST, path obligations are CFG dominance / must-precede / exactly-once counts on the normalised view (private helpers inlined, named temporaries substituted), "
+    "writers are closed over the call graph; nothing is evaluated, no clause of this property rests on bounded evidence only. "
     "Not decided: convergence over message interleavings of two endpoints (needs state exploration), user policy hooks."
 )
 ASSUMPTIONS = [
